@@ -5,7 +5,10 @@ import copy as _copy
 
 NODE_LABELS = ['L', 'M']
 # edge-label universe: (name, type, terminal?)  -- f and X occur with two different types (name clashes)
-EDGE_LABELS = [('f', ['L'], True), ('f', ['M'], True), ('g', ['L', 'L'], True), ('X', ['L'], False), ('X', ['M'], False), ('c', [], True)]
+EDGE_LABELS = [('f', ['L'], True), ('f', ['M'], True), ('g', ['L', 'L'], True), ('X', ['L'], False), ('X', ['M'], False), ('c', [], True),
+               # a second nonterminal name that no grammar starts with (X is the start symbol of every HRG built here): used by rules only
+               ('Y', ['L'], False), ('Y', ['M'], False)]
+N_GRAPH_LABELS = 6
 NODE_IDS = ['a', 'b', None]
 EDGE_IDS = ['e', 'd', None]
 
@@ -200,6 +203,9 @@ RULES = [   # (lhs label index into EDGE_LABELS (nonterminals 3,4), rhs spec)
     (5, {'nodes': [], 'edges': [], 'ext': []}),                         # terminal lhs: HRGRule raises
     (3, {'nodes': [0, 1], 'edges': [(4, [1])], 'ext': [0]}),            # lhs X:(L), rhs edge X:(M): the rule clashes with itself
     (4, {'nodes': [1, 0], 'edges': [(3, [1]), (1, [0])], 'ext': [0]}),  # lhs X:(M), rhs edges X:(L) and f:(M)
+    (6, {'nodes': [0, 1], 'edges': [(7, [1])], 'ext': [0]}),            # lhs Y:(L), rhs edge Y:(M): clashes with itself on a name new to the grammar
+    (6, {'nodes': [0], 'edges': [(6, [0]), (0, [0])], 'ext': [0]}),     # well-formed rule for Y:(L)
+    (3, {'nodes': [0, 1, 1], 'edges': [(7, [1]), (0, [0])], 'ext': [0]}),   # lhs X:(L) with a rhs edge Y:(M)
 ]
 
 
